@@ -16,6 +16,7 @@ mod c15;
 mod c18;
 mod compare;
 mod conc;
+mod damage;
 mod hist;
 mod icept;
 mod real;
@@ -77,6 +78,14 @@ fn main() {
         "C07" => {
             report = Report::new("C07", "a direct CreateNew test on the transport; histories (as C02, incl. interrupted and resumed backups) with byte-for-byte snapshots of the archive before/after every step; and two backups of differing sources racing on one archive under schedules (A runs i ops, B runs j, A runs k, for i,j<=10, plus random schedules); non-trivial = history with more than one backup / schedule in which both actors move; distinct by seed and schedule");
             c07::run(&tier, seed, &mut report);
+        }
+        "C09" => {
+            report = Report::new("C09", "healthy side: final states of generated histories (completed and interrupted backups, deletes, gc) validated full and quick; damage side: EVERY file of scenario archives x {delete, truncate 0, truncate half, garbage} plus sampled bit flips, each followed by restore of every version and full+quick validation; all cases non-trivial; distinct by seed, file and damage");
+            damage::run_c09(&tier, seed, &mut report);
+        }
+        "C10" => {
+            report = Report::new("C10", "EVERY file (header aside) of scenario archives x {delete, truncate 0, truncate half, garbage} plus sampled bit flips; then versions, list and restore of every band, validate full and quick, and (for deleted/emptied files) a new backup + restore, each under catch_unwind and a timeout; all cases non-trivial; distinct by seed, file and damage");
+            damage::run_c10(&tier, seed, &mut report);
         }
         "C13" => {
             report = Report::new("C13", "generated histories (as C02: option combinations, interrupted and resumed backups, deletes, gc); after EVERY mutating step the real archive is decoded by an independent reader and checked clause by clause against doc/format.md, and the Lean predicate Conforms is evaluated on it; one case per (history, step); all non-trivial");
